@@ -100,7 +100,8 @@ func fixtures() map[string][]fixture {
 		"Gemm": {{attrs: []*onnx.AttributeProto{aI("transB", 1)}, inputs: func() []tensor.Tensor { return []tensor.Tensor{fxF32(2, 3), fxF32(4, 3), fxF32(4)} }},
 			{attrs: []*onnx.AttributeProto{aI("transA", 1)}, inputs: func() []tensor.Tensor { return []tensor.Tensor{fxF32(3, 2), fxF32(3, 4)} }},
 			{attrs: []*onnx.AttributeProto{aF("alpha", 0.5), aF("beta", 0.25)}, inputs: func() []tensor.Tensor { return []tensor.Tensor{fxF32(2, 3), fxF32(3, 4), fxF32(2, 4)} }},
-			{attrs: []*onnx.AttributeProto{aF("beta", 2)}, inputs: func() []tensor.Tensor { return []tensor.Tensor{fxF32(1, 3), fxF32(3, 4), fxF32(1, 4)} }}},
+			{attrs: []*onnx.AttributeProto{aF("beta", 2)}, inputs: func() []tensor.Tensor { return []tensor.Tensor{fxF32(1, 3), fxF32(3, 4), fxF32(1, 4)} }},
+			{attrs: []*onnx.AttributeProto{aI("transA", 1), aI("transB", 1)}, inputs: func() []tensor.Tensor { return []tensor.Tensor{fxF32(3, 2), fxF32(4, 3), fxF32(4)} }}},
 		"GRU": {{attrs: []*onnx.AttributeProto{aI("hidden_size", 2)}, outputs: []string{"Y", "Y_h"}, inputs: func() []tensor.Tensor {
 			return []tensor.Tensor{fxF32(2, 2, 3), fxF32(1, 6, 3), fxF32(1, 6, 2), fxF32(1, 12), nil, fxF32(1, 2, 2)}
 		}}},
@@ -114,7 +115,8 @@ func fixtures() map[string][]fixture {
 		"Scaler": {{attrs: []*onnx.AttributeProto{aFs("offset", 1, 2, 3), aFs("scale", 2, 2, 2)}, inputs: func() []tensor.Tensor { return []tensor.Tensor{fxF32(2, 3)} }},
 			{attrs: []*onnx.AttributeProto{aFs("offset", 1, 2, 3), aFs("scale", 2, 3, 4)}, inputs: func() []tensor.Tensor { return []tensor.Tensor{fxF32(3)} }},
 			{attrs: []*onnx.AttributeProto{aFs("offset", 1, 2, 3), aFs("scale", 2, 3, 4)}, inputs: func() []tensor.Tensor { return []tensor.Tensor{fxF32(1, 3)} }}},
-		"MatMul": {{inputs: func() []tensor.Tensor { return []tensor.Tensor{fxF32(2, 3), fxF32(3, 2)} }}, {inputs: func() []tensor.Tensor { return []tensor.Tensor{fxF32(2, 2, 3), fxF32(3)} }},
+		"MatMul": {{inputs: func() []tensor.Tensor { return []tensor.Tensor{fxF32(2, 3), fxF32(3, 2)} }},
+			{inputs: func() []tensor.Tensor { return []tensor.Tensor{fxF32(3), fxF32(3, 2)} }}, {inputs: func() []tensor.Tensor { return []tensor.Tensor{fxF32(2, 3), fxF32(3)} }}, {inputs: func() []tensor.Tensor { return []tensor.Tensor{fxF32(2, 2, 3), fxF32(3)} }},
 			{inputs: func() []tensor.Tensor { return []tensor.Tensor{fxF32(3), fxF32(2, 3, 2)} }}},
 		"Reshape": {{inputs: func() []tensor.Tensor { return []tensor.Tensor{fxF32(2, 3), fxI64(3, -1)} }}},
 		"Shape":   un(fxF32),
